@@ -69,6 +69,9 @@ def the_grid():
 PER_RUN = 24
 
 
+SEEDED_SCALE = {"quick": 4, "thorough": 5}      # multiplies the run counts of the sampled families in plan()
+ENUMERATED = ('b2b_enum',)       # families whose size is the size of an enumeration
+
 def plan(tier):
     n_enum = -(-len(the_grid()) // PER_RUN)
     if tier == "quick":
